@@ -9,6 +9,7 @@ import Hdl21Model.Lemmas.Conn
 import Hdl21Model.Lemmas.Resolve
 import Hdl21Model.Lemmas.Export
 import Hdl21Model.Lemmas.ResolveTotal
+import Hdl21Model.Lemmas.ResolveUnit
 namespace Hdl21.Props.C03
 open Hdl21
 
@@ -301,6 +302,26 @@ theorem resolve_total_of_width (c : SConn) (w : Nat) (hw : c.width = .ok w) (hne
   obtain ⟨bs, hd, hl⟩ := width_denote c w hw
   obtain ⟨r, hr, hrd, hre⟩ := resolve_total c bs hd hne (needR c) (Nat.le_refl _)
   exact ⟨r, hr, by rw [denote_width r bs hrd, hl], hre⟩
+
+/-- **In-range indices and non-empty unit-step ranges are accepted — all the way into the package.** An expression whose every
+    index is an integer or a unit-step range (at any depth, over any mix of slices and concatenations), which denotes something
+    and names declared signals, is resolved *and exported*, and the target the netlisters read holds exactly its bits, in order.
+    (The exporter's one refusal — a stepped slice taken directly from a Signal — cannot arise: `resolve_unit`.) -/
+theorem unit_step_accepted (ws : List (String × Nat)) (c : SConn) (bs : List Bit) (hd : c.denote = .ok bs)
+    (hu : c.unit = true) (hne : c.noEmpty = true) (hok : sigsOK ws c = true) :
+    ∃ r t, resolveSliceable (needR c) c = .ok r ∧ exportTarget r = .ok t ∧ Pkg.readTarget ws t = bs.map bitNat := by
+  obtain ⟨r, hr, hrd, hre⟩ := resolve_total c bs hd hne (needR c) (Nat.le_refl _)
+  have hru := (resolve_unit (needR c)).2.2.1 c r hr hu
+  obtain ⟨t, ht⟩ := export_total r hre hru ⟨bs, hrd⟩
+  have hok' : sigsOK ws r = true :=
+    (resolve_keeps (fun c => sigsOK ws c = true) (by
+      constructor
+      · intro p idx; rw [sigsOK]
+      · intro ps; rw [sigsOK]
+        induction ps with
+        | nil => simp [sigsOKList]
+        | cons p ps ih => simp [sigsOKList, ih]) (needR c)).2.2.1 c r hr hok
+  exact ⟨r, t, hr, ht, export_read ws r t bs hok' ht hrd⟩
 
 /-- non-vacuity: a reversed, strided slice of a concatenation of a slice and a signal, resolved with exactly `needR` fuel -/
 example :
